@@ -3,6 +3,8 @@
 import sys, subprocess, os
 only = sys.argv[1:] 
 env = {**os.environ, 'GOFLAGS': '-mod=mod', 'GOPROXY': 'off', 'GOSUMDB': 'off', 'GOTOOLCHAIN': 'local'}
+if subprocess.run(['git','-C','/repo','status','--porcelain'],capture_output=True,text=True).stdout.strip():
+    print("REFUSED: /repo has uncommitted changes (commit them first)"); sys.exit(4)
 ok = bad = 0
 for ln in open('/verif/selftest/mutants.tsv'):
     if ln.startswith('#') or not ln.strip():
